@@ -38,6 +38,7 @@
 #include <vector>
 #include <list>
 #include <string>
+#include <thread>
 #include <unistd.h>
 #include <signal.h>
 #include <sys/wait.h>
@@ -81,6 +82,7 @@ struct Recorder {
 	std::map<const DOMElement*, int> transIndex;
 	std::map<const DOMElement*, std::string> elemPath;
 	bool inReceive = false;
+	std::thread::id owner = std::this_thread::get_id();   // the stepping thread
 
 	void atom(const std::string& a, const std::string& xjson, long v) {
 		atoms.push_back("{\"a\":\"" + a + "\",\"x\":" + xjson + ",\"v\":" + std::to_string(v) + "}");
@@ -194,7 +196,9 @@ public:
 		return e;
 	}
 	void enqueue(const Event& e) {
-		if (REC->inReceive) { _q.enqueue(e); return; }
+		// a delayed <send> arrives on the timer thread: the recorder belongs to the stepping thread
+		// (the arrival is seen when the event is dequeued)
+		if (REC->inReceive || std::this_thread::get_id() != REC->owner) { _q.enqueue(e); return; }
 		REC->cb(_internal ? "NQI" : "NQE", e.name);
 		if (e.name.size() > 0)
 			REC->atom(_internal ? "raise" : "send", jtokens(e.name), 0);
@@ -325,6 +329,13 @@ static int runCase(const Case& c, FILE* out) {
 		int steps = 0;
 		int idles = 0;
 		int stables = 0;
+		// charts with delayed <send>: at the end, block in step() until nothing arrives for settleMs
+		int settleMs = 0;
+		bool settled = false;     // the run ended with a blocking step that timed out: every timer had time to fire
+		{
+			size_t p = c.header.find("\"settle\":");
+			if (p != std::string::npos) settleMs = atoi(c.header.c_str() + p + 9);
+		}
 		bool finishedOnce = false;
 		InterpreterState st = USCXML_UNDEF;
 		while (steps < MAXSTEPS) {
@@ -382,6 +393,16 @@ static int runCase(const Case& c, FILE* out) {
 					rec.inReceive = false;
 					emitCall(out, "receive", jtokens(c.words[wi]), "-", rec, cfgJson(interp));
 					wi++;
+				} else if (settleMs > 0 && cancelAt < 0) {
+					// wait for delayed events: a blocking step returns early when one arrives
+					while (steps < MAXSTEPS) {
+						st = interp.step(settleMs);
+						steps++;
+						emitCall(out, "step", "[]", stateName(st), rec, cfgJson(interp));
+						if (st == USCXML_IDLE) settled = true;                   // nothing arrived for settleMs
+						if (st == USCXML_FINISHED || st == USCXML_IDLE) break;
+					}
+					break;
 				} else {
 					if (cancelAt >= 0 || ++idles > 1) break;
 					// one extra step at quiescence: must be IDLE again
@@ -406,7 +427,7 @@ static int runCase(const Case& c, FILE* out) {
 			fprintf(out, "%s{\"n\":\"%s\",\"def\":%s,\"v\":%ld}", first ? "" : ",", jesc(v).c_str(), def ? "true" : "false", def ? num : 0);
 			first = false;
 		}
-		fprintf(out, "],\"last\":\"%s\",\"limit\":%s", stateName(st), steps >= MAXSTEPS ? "true" : "false");
+		fprintf(out, "],\"last\":\"%s\",\"settled\":%s,\"limit\":%s", stateName(st), settled ? "true" : "false", steps >= MAXSTEPS ? "true" : "false");
 		fflush(out);
 		// leave without destroying the interpreter: tear-down (timer thread join) is
 		// C10's subject and must not colour the outcome of a trace-recording case
